@@ -19,3 +19,7 @@ def run(ctx):
     engine_common.run_engine(ctx, ["C01:"], n_quick=3000, n_thorough=60000)
     ctx.cov["rule"] = ("seeded operation sequences (LOCK/UNLOCK with flags from the core subset, ticks, role flips, snapshots, adaptive drain) on 1–2 keys, 2–4 LockIds, "
                        "3 connections; three profiles (mixed, capacity-heavy, queue-heavy); distinct_nontrivial = distinct sequences containing at least one grant")
+
+
+def replay(path):
+    return engine_common.replay_engine("C01", path)
